@@ -369,6 +369,19 @@ func runAsm(m *model.Model, s *ob.Set) {
 			continue
 		}
 		k, why := laneCongruent(t)
+		if why != "" && k > 0 {
+			// not congruent instruction by instruction: compare what the two loops compute
+			if ub, lb := laneLoops(t); ub != nil && lb != nil {
+				diff, decided := symLoopEquiv(ub, lb, k, f.defines)
+				if decided && diff == "" {
+					s.Ok(R, c, rel(t), fmt.Sprintf("unrolled body == tail loop x%d by symbolic evaluation (same values stored at the same addresses, same loop-carried registers); the instruction sequences differ: %s", k, why))
+					continue
+				}
+				if decided {
+					why += "; by symbolic evaluation: " + diff
+				}
+			}
+		}
 		s.Check(why == "", R, c, rel(t), fmt.Sprintf("unrolled body == tail loop x%d, index step %d", k, k), why)
 	}
 
@@ -416,6 +429,29 @@ func runAsm(m *model.Model, s *ob.Set) {
 		}
 	}
 
+	// ---- A5e: provenance of consumed carries
+	for _, t := range f.texts {
+		bad, checked := asmCarryRule(t, externs[strings.TrimPrefix(t.name, "·")])
+		if checked == 0 {
+			continue
+		}
+		c := "carry/" + t.name
+		if len(bad) == 0 {
+			s.Ok(R, c, rel(t), fmt.Sprintf("%d carry consumer(s)/word sums: no carry materialised twice, every word+word sum has its hardware carry read", checked))
+		} else {
+			s.Bad(R, c, rel(t), bad[0], bad[1:]...)
+		}
+	}
+
+	// ---- A5f: the base reduction is on every path of the scalar routines that contain it
+	for _, t := range f.texts {
+		bad, ok := asmDivCore(t)
+		if !ok {
+			continue
+		}
+		s.Check(bad == "", R, "divcore/"+t.name, rel(t), "every result is written behind the multiplication by the reciprocal of the word base", bad+": between 10^19 and 2^64 a product whose high binary word is zero still has a non-zero high decimal word")
+	}
+
 	// ---- A5d: dead register loads (informational)
 	for _, t := range f.texts {
 		bad, moves := asmDeadMoves(t, contracts)
@@ -454,6 +490,21 @@ func runAsm(m *model.Model, s *ob.Set) {
 					why = fmt.Sprintf("inlined div10W sequence has %d instructions, ·div10W has %d", len(seq), len(rseq))
 				} else {
 					why = alphaEqual(rseq, seq, alias)
+				}
+				if why != "" {
+					// not alignable instruction by instruction (reordered, constant hoisted out of
+					// the loop ...): compare what is computed. The sequence is the innermost loop
+					// body that contains a MULQ, or the whole routine if it has no loop; registers
+					// loaded with a constant before it and not written in it keep that constant.
+					body, entry := inlineBody(t, f.defines)
+					diff, decided := symInlineEquiv(ref, body, entry, f.defines)
+					if decided && diff == "" {
+						s.Ok(R, c, rel(t), "computes ·div10W's two results from a register pair (n1, n0), by symbolic evaluation; the instruction sequences differ: "+why)
+						continue
+					}
+					if decided {
+						why += "; by symbolic evaluation: " + diff
+					}
 				}
 				s.Check(why == "", R, c, rel(t), fmt.Sprintf("%d instructions equal ·div10W's up to register renaming", len(seq)), why)
 			}
@@ -581,6 +632,27 @@ func countLaneStores(b []asmInstr) int {
 // advances its index by K. ALU instructions are compared as one ordered list, loads and stores
 // as ordered lists of their own. The two loops are the loops of t that store to lanes: the one
 // with the fewest lane stores is the tail loop, the one with the most the unrolled body.
+// laneLoops returns the unrolled loop body and the tail loop body of t (nil, nil if there is no
+// such pair).
+func laneLoops(t *asmText) (ub, lb []asmInstr) {
+	for _, b := range asmLoops(t) {
+		n := countLaneStores(b)
+		if n == 0 {
+			continue
+		}
+		if lb == nil || n < countLaneStores(lb) {
+			lb = b
+		}
+		if ub == nil || n > countLaneStores(ub) {
+			ub = b
+		}
+	}
+	if ub == nil || lb == nil || countLaneStores(ub) == countLaneStores(lb) {
+		return nil, nil
+	}
+	return ub, lb
+}
+
 func laneCongruent(t *asmText) (int, string) {
 	var ubRaw, lbRaw []asmInstr
 	for _, b := range asmLoops(t) {
@@ -1034,4 +1106,48 @@ func helperDst(t *asmText) string {
 		}
 	}
 	return dst
+}
+
+// inlineBody: the instruction sequence of t in which an inlined division is looked for (the loop
+// body containing MULQ, else all of t), and the constants its registers hold on entry: registers
+// loaded with an immediate in the straight-line prefix of t and never written inside the body.
+func inlineBody(t *asmText, defines map[string]string) ([]asmInstr, *symState) {
+	var body []asmInstr
+	for _, b := range asmLoops(t) {
+		has := false
+		for _, in := range b {
+			if in.op == "MULQ" {
+				has = true
+			}
+		}
+		if has && (body == nil || len(b) < len(body)) {
+			body = b
+		}
+	}
+	entry := newSymState(defines)
+	if body == nil {
+		for _, in := range t.instrs {
+			if in.label == "" {
+				body = append(body, in)
+			}
+		}
+		return body, entry
+	}
+	written := map[string]bool{}
+	for _, in := range body {
+		for _, w := range asmEffect(in).writes {
+			written[w] = true
+		}
+	}
+	for _, in := range t.instrs {
+		if in.label != "" || strings.HasPrefix(in.op, "J") {
+			break
+		}
+		if in.op == "MOVQ" && len(in.args) == 2 && strings.HasPrefix(in.args[0], "$") && asmRegs[in.args[1]] && !written[in.args[1]] {
+			if v, ok := entry.imm(in.args[0]); ok {
+				entry.reg[in.args[1]] = v
+			}
+		}
+	}
+	return body, entry
 }
